@@ -14,6 +14,7 @@
 #include <cppcms/http_content_filter.h>
 #include <cppcms/cache_interface.h>
 #include <cppcms/copy_filter.h>
+#include <cppcms/filters.h>
 #include <cppcms/json.h>
 #include <booster/aio/io_service.h>
 #include <booster/shared_ptr.h>
@@ -179,6 +180,8 @@ public:
 };
 
 // ------------------------------------------------------------------ writer: executes a script of response operations
+struct raw_streamed { std::string const *s; };
+static std::ostream &operator<<(std::ostream &o, raw_streamed const &r) { return o.write(r.s->data(), (std::streamsize)r.s->size()); }
 struct wop { char op; long a; long b; std::string s1, s2; };
 static std::vector<wop> parse_script(std::string const &s)
 {
@@ -210,6 +213,8 @@ public:
 			case 'w': { std::string d = pattern_bytes((unsigned)o.b, (size_t)o.a); rs.out().write(d.data(), (std::streamsize)d.size()); break; }
 			case 'o': { std::string d = pattern_bytes((unsigned)o.b, (size_t)o.a); rs.out() << d; break; }
 			case 'p': { std::string d = pattern_bytes((unsigned)o.b, (size_t)o.a); for (char c : d) rs.out().put(c); break; }
+			case 'e': { std::string d = pattern_bytes((unsigned)o.b, (size_t)o.a); raw_streamed r = { &d }; rs.out() << cppcms::filters::escape(r); break; }      // through a template filter (escape of a streamed object)
+			case 'u': { std::string d = pattern_bytes((unsigned)o.b, (size_t)o.a); raw_streamed r = { &d }; rs.out() << cppcms::filters::urlencode(r); break; }
 			case 'L': rs.out().write(o.s1.data(), (std::streamsize)o.s1.size()); break;   // literal bytes (raw modes: the header block)
 			case 'f': rs.out() << std::flush; break;
 			case 'Z': rs.finalize(); break;                // the application finalizes the response itself (documented for asynchronous applications)
@@ -359,9 +364,16 @@ static void control_thread()
 	if (g_srv) g_srv->shutdown();
 }
 
+// an application may install a global C++ locale with digit grouping (std::locale::global(std::locale("en_US.UTF-8")) does): numbers the
+// library puts on the wire (lengths, chunk sizes, status codes, cookie ages) must not pick it up
+struct grouping_punct : std::numpunct<char> {
+	char do_thousands_sep() const override { return ','; }
+	std::string do_grouping() const override { return "\3"; }
+};
 int main(int argc, char **argv)
 {
 	args a(argc, argv);
+	if (getenv("VSRV_GROUPING_LOCALE")) std::locale::global(std::locale(std::locale::classic(), new grouping_punct()));
 	std::string cfgfile = a.str("config");
 	std::string logfile = a.str("log");
 	if (!logfile.empty()) g_log = fopen(logfile.c_str(), "w");
